@@ -126,7 +126,7 @@ class CreditControlRequest(DiameterRequest):
                     "destination_host": DestinationHostAVP,
                     "user_name": UserNameAVP,
                     # "cc_sub_session_id_avp": CcSubSessionIdAVP,
-                    "acct_multi_session_id_avp": AcctMultiSessionIdAVP,
+                    "acct_multi_session_id": AcctMultiSessionIdAVP,
                     "origin_state_id": OriginStateIdAVP,
                     "event_timestamp": EventTimestampAVP,
                     "subscription_id": SubscriptionIdAVP,
